@@ -11,7 +11,7 @@ from common import Broken
 LEVEL = "proof"
 KEY_ORDER = "go-map-order-visible-through-dict-iteration"
 
-DICE = ["2d6", "3d20k2", "4d6dl1", "d", "2d", "b2", "p", "f", "5a8", "3a9m6k4", "3c8", "4c9m10", "(2d4)d6", "d优势", "[1,2,3,4,5].shuffle()",
+DICE = ["d6148914691236517206", "3d6148914691236517206", "2d9223372036854775806k1", "2d6", "3d20k2", "4d6dl1", "d", "2d", "b2", "p", "f", "5a8", "3a9m6k4", "3c8", "4c9m10", "(2d4)d6", "d优势", "[1,2,3,4,5].shuffle()",
         "[1,2,3].rand()", "[1,2,3,4].randSize(2)", "2d6+3c8*f", "x=3d6; y=x+b", "[2d6, 3c8, f]", "`{2d6} {3c8}`"]
 
 
@@ -25,10 +25,15 @@ def make_inputs(rnd, n):
                 src += rnd.choice([" + ", " - ", "; "]) + rnd.choice(DICE)
         else:
             src = gen.G(rnd, max_depth=rnd.choice([1, 2])).program()
-        pre = rnd.choice(["", "x=3; arr=[1,2,3]", "func g(u){ u+2d6 }; &val = 2d4"])
+        pre = rnd.choice(["", "x=3; arr=[1,2,3]", "func g(u){ u+2d6 }; &val = 2d4", "func g(u){ u+2d6 }; &val = 2d4; &hp = 3d6 + b"])
+        restore = False
+        if "&val" in pre and rnd.random() < 0.6:
+            # use the history's dice-rolling function / computed value, half of the time after a JSON snapshot + restore (lazy compilation path)
+            src = rnd.choice(["val + 1", "g(1) + val", "[val, val]", "val + 2d6", "g(2)"]) + (" + hp" if "&hp" in pre else "")
+            restore = rnd.random() < 0.6
         nxt = rnd.choice(DICE[:14])
         out.append({"b64": base64.b64encode(src.encode()).decode(), "pre": base64.b64encode(pre.encode()).decode(),
-                    "next": base64.b64encode(nxt.encode()).decode(), "_src": src, "_pre": pre, "_next": nxt})
+                    "next": base64.b64encode(nxt.encode()).decode(), "restore": restore, "_src": src, "_pre": pre, "_next": nxt})
     return out
 
 
@@ -75,8 +80,7 @@ def run(res, tier, seed):
         if r["a"].get("panic") or r["b"].get("panic"):
             continue
         if not r["same"]:
-            txt = i["_src"] + i["_pre"]
-            if any(t in txt for t in (".keys()", ".values()", ".items()", "dir(", "{")) and KEY_ORDER in known:
+            if r.get("unstable") and KEY_ORDER in known:
                 order_hits += 1
                 continue
             res.violation({"what": "same program, same seed, same history: different outcome after the package generator / another VM was used in between",
